@@ -1241,6 +1241,22 @@ def build(unit_path, prelude_paths, canary=False):
                             hdr = re.sub(r"^(impl\s*(<[^>]*>)?)\s*.*?\bfor\b\s*", r"\1 ", hdr, flags=re.S)
                         # else keep the trait impl header as is
                     wrap_open, wrap_close = hdr + " {\n", "}\n"
+                # constants / statics of the same source file that the function text refers to and that no directive has
+                # copied yet are copied automatically (a refactoring that introduces a lookup table must not make the unit
+                # uncompilable)
+                if not stub:
+                    src_f, items_f = items_of(fs.file)
+                    used = set(t.text for t in lex(it.text) if t.kind == "ident" and re.match(r"^[A-Z][A-Z0-9_]{2,}$", t.text))
+                    for ci in items_f:
+                        if ci.kind == "const" and ci.name in used and ("const", ci.name) not in seen:
+                            seen.add(("const", ci.name))
+                            tci = rule_R0(ci.text, stats)
+                            tci = re.sub(r"^\s*(pub\s+)?", "pub ", tci, count=1)
+                            if re.match(r"pub\s+static\b", tci) and "rule_R12" in globals():
+                                tci = rule_R12(tci, stats)
+                            if "rule_R51" in globals():
+                                tci = rule_R51(tci, stats)
+                            emit(tci + "\n", {"origin": "code", "file": fs.file, "line": ci.line, "fn": ci.name})
                 emit(wrap_open + header, {"origin": "gen"})
                 # code segments carry source line numbers
                 line = it.line
